@@ -1,7 +1,7 @@
 (* Dispatcher used by the correspondence check: the model's answer for one case line.
    Function codes are assigned in driver/fncodes.py (single source of the numbering). *)
 From Coq Require Import NArith List Bool.
-From RQ Require Import Base.Outcome Base.Ints Base.ListX Gen.Consts Spec.GF256 Spec.Wire Spec.Oti Model.Octet Model.Wire Model.Oti Model.Cache Model.RunCodec.
+From RQ Require Import Base.Outcome Base.Ints Base.ListX Gen.Consts Spec.GF256 Spec.Wire Spec.Oti Spec.Rand Spec.Tuple Spec.Prime Spec.Derive Model.Params Model.Octet Model.Wire Model.Oti Model.Cache Model.SysConst Model.Tuple Model.RunCodec Model.RunKern.
 Import ListNotations.
 Open Scope N_scope.
 
@@ -86,8 +86,51 @@ Definition run_codec (f : N) (a : list N) : list N :=
   | 214 => run_intermediate Checked a
   | 205 => run_layout_packets Release a
   | 206 => run_layout_roundtrip Release a
+  | 207 => run_slab_replay Release a
+  | 217 => run_slab_replay Checked a
   | 250 => run_spec_block_packets a
   | 251 => run_spec_layout_packets a
+  | _ => [0; 99]
+  end.
+
+(* systematic constants, rand, deg, tuples: 300..349; Spec oracles 350.. *)
+Definition enc_t6 (x : outcome (N * N * N * N * N * N)) : list N :=
+  match x with
+  | Ok (d, a0, b, d1, a1, b1) => [1; d; a0; b; d1; a1; b1]
+  | Panic c => [0; pcode c]
+  end.
+Definition t6_of (a : list N) : N * N * N * N * N * N :=
+  (arg a 0, arg a 1, arg a 2, arg a 3, arg a 4, arg a 5).
+
+Definition run_tuple (f : N) (a : list N) : list N :=
+  match f with
+  | 300 => enc1 (extended_source_block_symbols (arg a 0))
+  | 301 => enc1 (systematic_index (arg a 0))
+  | 302 => enc1 (num_hdpc_symbols (arg a 0))
+  | 303 => enc1 (num_ldpc_symbols (arg a 0))
+  | 304 => enc1 (num_lt_symbols (arg a 0))
+  | 305 => enc1 (num_intermediate_symbols (arg a 0))
+  | 306 => enc1 (num_pi_symbols (arg a 0))
+  | 307 => enc1 (calculate_p1 (arg a 0))
+  | 310 => enc1 (rand_gen true Release (arg a 0) (arg a 1) (arg a 2))
+  | 311 => enc1 (rand_gen true Checked (arg a 0) (arg a 1) (arg a 2))
+  | 312 => enc1 (deg Release (arg a 0) (arg a 1))
+  | 313 => enc1 (deg Checked (arg a 0) (arg a 1))
+  | 314 => enc_t6 (intermediate_tuple_gen true Release (arg a 0) (arg a 1) (arg a 2) (arg a 3))
+  | 315 => enc_t6 (intermediate_tuple_gen true Checked (arg a 0) (arg a 1) (arg a 2) (arg a 3))
+  | 316 => encl (enc_indices Release (t6_of a) (arg a 6) (arg a 7) (arg a 8))
+  | 317 => encl (enc_indices Checked (t6_of a) (arg a 6) (arg a 7) (arg a 8))
+  | 318 => enc_t6 (intermediate_tuple_gen false Checked (arg a 0) (arg a 1) (arg a 2) (arg a 3))
+  | 320 => enc_oti (gen_params true Release (arg a 0) (arg a 1) (arg a 2))
+  | 321 => enc_oti (gen_params true Checked (arg a 0) (arg a 1) (arg a 2))
+  | 322 => enc_oti (Model.Params.with_defaults true Release (arg a 0) (arg a 1))
+  | 323 => enc_oti (Model.Params.with_defaults true Checked (arg a 0) (arg a 1))
+  | 324 => enc_oti (gen_params false Release (arg a 0) (arg a 1) (arg a 2))
+  | 350 => [1; Rand (arg a 0) (arg a 1) (arg a 2)]
+  | 353 => [1; b2n (Db (arg a 0) (arg a 1) (arg a 2)); arg a 0; T_of (arg a 1); Z_of (arg a 0) (arg a 1) (arg a 2);
+            N_of (arg a 0) (arg a 1) (arg a 2); Al_of (arg a 1)]
+  | 351 => enc_t6 (Ok (Tuple (arg a 2) (arg a 1) (arg a 3) (arg a 0)))
+  | 352 => [1; if is_prime (arg a 0) then 1 else 0]
   | _ => [0; 99]
   end.
 
@@ -95,4 +138,6 @@ Definition run (f : N) (a : list N) : list N :=
   if f <? 100 then run_octet f a
   else if f <? 200 then run_wire f a
   else if f <? 300 then run_codec f a
+  else if f <? 400 then run_tuple f a
+  else if f <? 500 then run_kern f a
   else [0; 99].
